@@ -290,6 +290,14 @@ def convex_hull(
         validate=False,
     )
 
+    # merging vertices closer than `tol.merge` turns the sliver faces
+    # between them into faces that reference one vertex twice: they
+    # have no area and leave their other edge shared by four faces
+    f = convex.faces
+    collapsed = (f == f[:, [1, 2, 0]]).any(axis=1)
+    if collapsed.any():
+        convex.update_faces(~collapsed)
+
     # we did the gross case above, but sometimes precision issues
     # leave some faces backwards anyway
     # this call will exit early if the winding is consistent
